@@ -242,7 +242,9 @@ class C15:
             "Python-special names (size, init, super, typing, abc, Optional, Union, Callable, NewType, ABC, abstractmethod, "
             "Generic, err, it, G0, T, x1, x_1, cls, args, object, Tuple, Any, _private, ...) and, in half of the API / WideGen cases, chains "
             "of names of which one is a prefix of the next (s, si, siz, size, ...; res, result, results), and in a quarter of all cases a "
-            "renaming under which ANY two renamed identifiers are prefix-related (q, qw, qwe, qwer, ...); Mamba keywords, documented specials "
+            "renaming under which ANY two renamed identifiers are prefix-related (q, qw, qwe, qwer, ...); a fifth of the cases are shadow "
+            "programs (names re-defined with other types, also as destructured pairs) where one name is renamed to ANOTHER name plus a "
+            "mangling-style suffix (count / count_1 / count1 / count_); Mamba keywords, documented specials "
             "and Python hard keywords excluded. The renaming is applied to the Mamba text and, for comparison, to the Python text. "
             "Oracle: (a) same verdict; (b) ast(rename(out(P))) == ast(out(rename P)); (c) no capture: no target name that the "
             "renamed program binds is an identifier that out(P) uses without P having chosen it. Non-trivial: accepted and >=1 "
